@@ -708,7 +708,8 @@ JUNK_LINES = ['""', '"" 300 IN A 10.0.0.1', '"', "(", ")", "\\", "@", "$", "$TTL
               "$GENERATE 1-2 a$ A 10.0.0.${0,2,n}", "$GENERATE 1-2 a$ 1x IN A 10.0.0.$", "$GENERATE 1-2 \"\" A 10.0.0.$",
               "$GENERATE 1-2 a$ TXT \"", "$UNICODE", "$UNICODE 2003 x \"", "$FOO", "$ttl 5", " ", " A", "x CH A 1 2",
               "x TYPE0 \\# 0", "x 4294967296 A 10.0.0.1", "x A", "example. 5 IN SOA . . 1 2 3 4 5", "x CNAME y",
-              "@ CNAME y", "$TTL " + BIGNUM, "$GENERATE 1-2 a${" + BIGNUM + "} A 10.0.0.$"]
+              "@ CNAME y", "$TTL " + BIGNUM, "$GENERATE 1-2 a${" + BIGNUM + "} A 10.0.0.$",
+              "$GENERATE 1-2 a${0,99999999999999999999,d} A 10.0.0.$", "$GENERATE 1-2 a$ TXT ${0,99999999999999999999,x}"]
 MSG_JUNK_LINES = ['""', '"', "(", "\\", "id", "id 65536", "id x", "flags XX", "flags FLAG16", "edns 256", "edns -1",
                   "eflags XX", "payload 65536", "opcode 16", "opcode XX", "rcode 4096", "rcode XX", "foo 1", ";QUESTION",
                   ";ANSWER", ";ZONE", ";BOGUS", "a. 4294967296 IN A 10.0.0.1", "a. -1 IN A 10.0.0.1", "a. IN OPT",
@@ -1051,7 +1052,8 @@ JUNK_Q = ['""', '"" 300 IN A 10.0.0.1', '"', "(", ")", "\\", "$TTL", "$TTL x", "
           "$INCLUDE /nonexistent/verif-c04", "$GENERATE 1-2", "$GENERATE 1-2 a$ A", "$GENERATE 1-2/0 a$ A 10.0.0.$",
           "$GENERATE 1-2 a${0,1,q} A 10.0.0.$", "$GENERATE 1-2 \"\" A 10.0.0.$", "$UNICODE 2003 x \"", "$FOO", " A",
           "x CH A 1 2", "x 4294967296 A 10.0.0.1", "x CNAME y", "@ CNAME y", "$TTL " + BIGNUM,
-          "$GENERATE 1-2 a${" + BIGNUM + "} A 10.0.0.$"]
+          "$GENERATE 1-2 a${" + BIGNUM + "} A 10.0.0.$",
+              "$GENERATE 1-2 a${0,99999999999999999999,d} A 10.0.0.$", "$GENERATE 1-2 a$ TXT ${0,99999999999999999999,x}"]
 assert set(JUNK_Q) <= set(JUNK_LINES)
 ZCHARS_Q = ["\\", '"', " ", "(", ";", "\n", "$", "é"]
 
